@@ -94,6 +94,11 @@ def action_expressible(flavour, typed, a):
 
 
 def apply(kl, flavour, a):
+    with common.deadline(20):
+        return _apply(kl, flavour, a)
+
+
+def _apply(kl, flavour, a):
     """Execute action `a`; return (exception class name or 'ok', ret as list of abstract items)."""
     op = a["op"]
     g = lambda x: gamma_item(flavour, x)
@@ -140,7 +145,9 @@ def apply(kl, flavour, a):
             ret = [alpha_item(flavour, x) for x in r]
         else:
             raise AssertionError(op)
-    except Exception as e:  # noqa: BLE001 - the judge classifies
+    except (KeyboardInterrupt, SystemExit):
+        raise
+    except BaseException as e:  # noqa: BLE001 - the judge classifies (BaseTypeError is a BaseException)
         return type(e).__name__, []
     return "ok", ret
 
@@ -233,7 +240,13 @@ def run_table(job):
         if not all(expressible(flavour, x) for x in st):
             continue
         for a in acts:
-            kl = make(flavour, typed, st)          # a real history: constructor inserting item by item
+            try:
+                kl = make(flavour, typed, st)          # a real history: constructor inserting item by item
+            except BaseException as e:  # noqa: BLE001      (BaseTypeError is a BaseException)
+                pre = {"lst": list(st), "len": len(st), "keys": [x["k"] for x in st], "items": [{"k": x["k"], "v": x} for x in st]}
+                ops.append({"kind": "op", "cfg": {"typed": typed, "intkeys": flavour == "intkey"}, "flavour": flavour, "a": a, "pre": pre, "post": pre,
+                            "res": "ConstructionRefused:" + type(e).__name__, "ret": [], "src": "table"})
+                break
             ops.append(step_event(kl, flavour, typed, a, {"src": "table"}))
             re = reads_event(kl, flavour, typed, keys, universe, idxs)
             h = common.canon(re)
